@@ -103,3 +103,26 @@ func verifH_C18_api_event() {
 	verifAssert(verifCountEH(again, 2) == 0, "a Once event handler is handed out once")
 	verifReach("end")
 }
+
+// C18_api_subevents: internal sub-event handlers of two sockets are closures of the SAME function literal; removing the
+// one of a socket (by the pointer it was registered with) must leave the other socket's handler in place.
+//
+//verif:unwind 12
+func verifH_C18_api_subevents() {
+	st := newHandlerStore[*ManagerOpenFunc]()
+	mk := func(tag *int) *ManagerOpenFunc {
+		f := ManagerOpenFunc(func() { *tag++ })
+		return &f
+	}
+	var a, b int
+	pa, pb := mk(&a), mk(&b)
+	st.onSubEvent(pa)
+	st.onSubEvent(pb)
+	st.offSubEvent(pa)
+	for _, h := range st.getAll() {
+		(*h)()
+	}
+	verifAssert(a == 0, "a removed sub-event handler no longer runs")
+	verifAssert(b == 1, "the sub-event handler of another socket stays registered")
+	verifReach("end")
+}
